@@ -56,6 +56,7 @@ type Engine struct {
 	nextForTag int
 
 	inlineMemo  map[*ssa.Function]bool
+	dagMemo     map[*ssa.Function]bool
 	summaries   map[*ssa.Function]*NameSet
 	inSummary   map[*ssa.Function]bool
 	probes      map[*ssa.Function]map[int]*NameSet
